@@ -361,6 +361,33 @@ func (d *Decoder) decodeTypeAndValue(types *cadenceTypeByCCFTypeID) (cadence.Val
 	return d.decodeValue(t, types)
 }
 
+// decodeTypeAndValueIfTagged decodes ccf-type-and-value-message if the next encoded CBOR data item is a tag.
+// It returns false, without decoding anything, if the next encoded CBOR data item is not a tag.
+func (d *Decoder) decodeTypeAndValueIfTagged(t cadence.Type, types *cadenceTypeByCCFTypeID) (cadence.Value, bool, error) {
+	// Check next encoded CBOR type.
+	nextType, err := d.dec.NextType()
+	if err != nil {
+		return nil, false, err
+	}
+
+	if nextType != cbor.TagType {
+		return nil, false, nil
+	}
+
+	err = decodeCBORTagWithKnownNumber(d.dec, uint64(CBORTagTypeAndValue))
+	if err != nil {
+		return nil, false, fmt.Errorf("unexpected encoded value of Cadence type %s (%T): %w", t.ID(), t, err)
+	}
+
+	// Decode ccf-type-and-value-message.
+	value, err := d.decodeTypeAndValue(types)
+	if err != nil {
+		return nil, false, err
+	}
+
+	return value, true, nil
+}
+
 // decodeValue decodes encoded value of type t.
 // language=CDDL
 // value =
@@ -1133,6 +1160,14 @@ func (d *Decoder) decodeOptional(typ *cadence.OptionalType, types *cadenceTypeBy
 // language=CDDL
 // array-value = [* value]
 func (d *Decoder) decodeArray(typ cadence.ArrayType, hasKnownSize bool, knownSize uint64, types *cadenceTypeByCCFTypeID) (cadence.Value, error) {
+	// typ can be different from runtime ArrayType because arrays are covariant in the element type,
+	// e.g. a value of runtime type [Int] for type [AnyStruct].
+	// In this case, runtime type is encoded with the value (as tag content for tag CBORTagTypeAndValue).
+	typeAndValue, ok, err := d.decodeTypeAndValueIfTagged(typ, types)
+	if err != nil || ok {
+		return typeAndValue, err
+	}
+
 	// Decode array length.
 	n, err := d.dec.DecodeArrayHead()
 	if err != nil {
@@ -1177,6 +1212,14 @@ func (d *Decoder) decodeArray(typ cadence.ArrayType, hasKnownSize bool, knownSiz
 // language=CDDL
 // dict-value = [* (key: value, value: value)]
 func (d *Decoder) decodeDictionary(typ *cadence.DictionaryType, types *cadenceTypeByCCFTypeID) (cadence.Value, error) {
+	// typ can be different from runtime DictionaryType because dictionaries are covariant in the key and element type,
+	// e.g. a value of runtime type {String: Int} for type {String: AnyStruct}.
+	// In this case, runtime type is encoded with the value (as tag content for tag CBORTagTypeAndValue).
+	typeAndValue, ok, err := d.decodeTypeAndValueIfTagged(typ, types)
+	if err != nil || ok {
+		return typeAndValue, err
+	}
+
 	// Decode array length.
 	n, err := d.dec.DecodeArrayHead()
 	if err != nil {
